@@ -31,7 +31,14 @@ def run_property(pid: str, tier: str, repo: str | None = None, write=True, quiet
     prog = Program(repo)
     ck = Checker(prog, pid, tier)
     mod = importlib.import_module(f"sv.rules.{pid}")
-    mod.check(ck)
+    try:
+        mod.check(ck)
+    except AnalysisError as exc:
+        # an anchor vanished part-way: if a structural clause was already found violated that verdict
+        # stands (the violation is reported); otherwise the run is analysis-broken (exit 2)
+        if not any(not o.ok for o in ck.obs):
+            raise
+        ck.analysis_note = str(exc)  # type: ignore[attr-defined]
     if not ck.obs:
         raise AnalysisError(f"{pid}: no obligation was generated (rules matched nothing)")
     known = load_known()
@@ -73,6 +80,8 @@ def run_property(pid: str, tier: str, repo: str | None = None, write=True, quiet
             for fa in rep["false_alarms"]:
                 out.append(f"SELFTEST-NOTE: variant {fa['variant']} ({fa['kind']}) adds {fa['rules']} although it is not recorded as breaking {pid}")
     seed = int(os.environ.get("VERIF_SEED", "0") or 0)
+    if getattr(ck, "analysis_note", None):
+        out.append(f"[sv] note: analysis stopped early ({ck.analysis_note}); the violations found before that point are reported")
     for o in unlisted:
         path = write_replay(ck, o) if write else "-"
         out.append(f"VIOLATION property={pid} replay={path}")
